@@ -113,6 +113,7 @@ func signBytesEncoderName(c *Ctx) (string, *ssa.Function) {
 
 func propC15(c *Ctx) {
 	c.Clauses = append(c.Clauses,
+		"readers of the recorded host set answer from a store read made in the same call; the vote decoder returns, per commit entry, the entry's validator address verbatim and the extension decoded from that entry",
 		"UpdateOracle handler: ApplyOracleUpdate only after the executor check and with BridgeInfo.BridgeConfig.OracleEnabled",
 		"pipeline order: height not older than the recorded host set; ValidateVoteExtensions(store, height-1, L1 chain id, decoded commit) == nil precedes vote decoding, aggregation and price writes; timestamp pair must be present",
 		"voting power is accumulated only for votes of validators found in the stored set, with the commit flag, whose extension signature verifies (under the key stored for the same address) over CanonicalVoteExtension{chain id, height, round, extension}; success requires total > 0 and sum >= 2*total/3 + 1",
